@@ -182,10 +182,12 @@ func (s *timedStats) currentBucket() *stat {
 }
 
 func (s *timedStats) executionCount() uint {
+	s.currentBucket()
 	return s.summary.successes + s.summary.failures
 }
 
 func (s *timedStats) failureCount() uint {
+	s.currentBucket()
 	return s.summary.failures
 }
 
@@ -198,6 +200,7 @@ func (s *timedStats) failureRate() uint {
 }
 
 func (s *timedStats) successCount() uint {
+	s.currentBucket()
 	return s.summary.successes
 }
 
